@@ -847,7 +847,21 @@ class Path:
         if self.sliced is not None:
             raise ValueError("already sliced")
 
-        self.sliced = self._get_related(var_set)
+        sliced = self._get_related(var_set)
+
+        # self.related[idx] only covers the conditions that were present when condition idx
+        # was added, so conditions linked through later ones are collected here, until
+        # the set is closed under sharing variables
+        conds = list(self.conditions)
+        while True:
+            more = set()
+            for idx in sliced:
+                more.update(self.get_related(conds[idx]))
+            if more <= sliced:
+                break
+            sliced |= more
+
+        self.sliced = sliced
 
     def __deepcopy__(self, memo):
         raise NotImplementedError("use the branch() method instead of deepcopy()")
